@@ -1,0 +1,53 @@
+//go:build verif
+
+package tsm1
+
+import "fmt"
+
+// Verification hooks (build tag "verif" only): the two block orderings, driven directly.
+
+// VerifSortBlocks applies blocks.sortStable (the order in which a compaction merges the
+// blocks of one key) to blocks with the given index-entry time ranges and returns the input
+// positions in output order.
+func VerifSortBlocks(mins, maxs []int64) []int {
+	bs := make(blocks, len(mins))
+	pos := map[*block]int{}
+	for i := range mins {
+		bs[i] = &block{key: []byte("k"), minTime: mins[i], maxTime: maxs[i]}
+		pos[bs[i]] = i
+	}
+	bs.sortStable()
+	out := make([]int, len(bs))
+	for i, b := range bs {
+		out[i] = pos[b]
+	}
+	return out
+}
+
+type verifFile struct {
+	TSMFile
+	path string
+}
+
+func (f verifFile) Path() string { return f.path }
+
+// VerifSortLocations applies sortLocations (the order in which a KeyCursor visits the blocks
+// of one key) to blocks with the given time ranges and file numbers.
+func VerifSortLocations(mins, maxs []int64, files []int, ascending bool) []int {
+	ls := make([]*location, len(mins))
+	pos := map[*location]int{}
+	for i := range mins {
+		ls[i] = &location{r: verifFile{path: fmt.Sprintf("%09d-%09d.tsm", files[i]+1, 1)}, entry: IndexEntry{MinTime: mins[i], MaxTime: maxs[i]}}
+		pos[ls[i]] = i
+	}
+	if ascending {
+		sortLocations(ascLocations(ls))
+	} else {
+		sortLocations(descLocations(ls))
+	}
+	out := make([]int, len(ls))
+	for i, l := range ls {
+		out[i] = pos[l]
+	}
+	return out
+}
